@@ -1,2 +1,4 @@
 INIT Init
 NEXT Next
+INVARIANT One1
+INVARIANT Pair2
